@@ -487,7 +487,7 @@ class Interp:
                 ictx["State"] = {"Name": name}
                 ictx["Map"] = {"Item": {"Index": idx, "Value": copy.deepcopy(item)}}
                 try:
-                    eff = self.template(selector, inp, ictx, t_batch) if selector else copy.deepcopy(item)
+                    eff = self.template(selector, inp, ictx, t_batch) if selector is not None else copy.deepcopy(item)       # (an empty ItemSelector is a template too: every iteration gets {})
                 except StateError as e:
                     # the Map state itself fails while building an iteration's input
                     raise
